@@ -237,8 +237,10 @@ func (d *DefaultClientDispatcher) messagePump() {
 			continue
 		}
 
-		// Only dispatch request if able to send and request queue isn't empty
-		if rdy && !d.requestQueue.IsEmpty() {
+		// Only dispatch request if able to send and request queue isn't empty.
+		// Never while a request is outstanding, whatever the ready flag says: a ready token posted by a
+		// reconnection that raced the dispatch (or any stale one) would otherwise transmit the queue head a second time.
+		if rdy && !d.requestQueue.IsEmpty() && !d.pendingRequestState.HasPendingRequest() {
 			d.dispatchNextRequest()
 			rdy = false
 			// Set timer
